@@ -216,6 +216,8 @@ def write_evidence(ctx, thms, discharged, assumptions, checker_cmd, trusted, nvi
             stats=dict(sorted(ctx.stats.items())),
             broken_obligations=ctx.broken,
             extraction=ctx.extra.get('extraction', {}),
+            leanchecker=ctx.extra.get('leanchecker', 'thorough tier only'),
+            axioms_per_theorem=ctx.extra.get('axioms', {}),
         ),
         assumptions=assumptions,
         wall_s=round(time.time() - ctx.t0, 2),
@@ -229,10 +231,15 @@ def write_evidence(ctx, thms, discharged, assumptions, checker_cmd, trusted, nvi
 def run(prop, tier, seed, replay=None):
     mod = importlib.import_module('harness.props.' + prop)
     ctx = Ctx(prop, tier, seed)
+    spec = theorems_for(prop)
     if replay:
+        # bring the extracted files and the model driver in line with the CURRENT tree before replaying
+        with Lock():
+            if spec.get('extractors'):
+                run_extractors(spec['extractors'])
+            lake_build(['g3dmodel'])
         case = json.load(open(replay))
         return mod.replay(ctx, case)
-    spec = theorems_for(prop)
     thms = spec['theorems']
     extractors = spec.get('extractors', [])
     targets = sorted({t['module'] for t in thms}) + ['g3dmodel']
@@ -258,6 +265,13 @@ def run(prop, tier, seed, replay=None):
                 ctx.broken.append('audit: ' + x)
             for x in a['forbidden']:
                 ctx.broken.append('forbidden construct: ' + x)
+        if b['ok'] and tier == 'thorough':
+            # independent re-check of the compiled property modules by the toolchain's external checker
+            mods = sorted({t['module'] for t in thms})
+            lc = subprocess.run(['lake', 'env', 'leanchecker'] + mods, cwd=LEAN, capture_output=True, text=True, timeout=3600)
+            ctx.extra['leanchecker'] = dict(modules=mods, exit=lc.returncode, tail=(lc.stdout + lc.stderr)[-300:])
+            if lc.returncode != 0:
+                ctx.broken.append('leanchecker rejected %s: %s' % (mods, (lc.stdout + lc.stderr)[-200:]))
         model_ok = os.path.exists(MODEL_EXE)
     if not model_ok:
         log('INFRA: model driver missing after build')
@@ -336,7 +350,8 @@ def main(argv):
 
 
 # ------------------------------------------------------------------------------------------- parallel evaluation
-class CaseTimeout(Exception):
+class CaseTimeout(BaseException):
+    """not an Exception subclass on purpose: impl.call must not swallow it"""
     pass
 
 
@@ -344,15 +359,23 @@ def _alarm(signum, frame):
     raise CaseTimeout()
 
 
-def guarded(f, *a, seconds=20):
-    """run f(*a) with a wall-clock limit (a hang is an observable outcome, not a stuck check)"""
+def guarded(f, *a, seconds=30):
+    """run f(*a) with a wall-clock limit (a hang is an observable outcome, not a stuck check).  On an overloaded
+    machine a process can be descheduled for a long time, so a first timeout is retried once with a six times larger
+    limit before it counts."""
     import signal
     old = signal.signal(signal.SIGALRM, _alarm)
-    signal.alarm(seconds)
     try:
-        return f(*a)
+        for limit in (seconds, 6 * seconds):
+            signal.alarm(limit)
+            try:
+                return f(*a)
+            except CaseTimeout:
+                if limit != seconds:
+                    return ('exc', 'CaseTimeout', 'no answer within %d s (twice)' % limit)
+            finally:
+                signal.alarm(0)
     finally:
-        signal.alarm(0)
         signal.signal(signal.SIGALRM, old)
 
 
